@@ -86,15 +86,29 @@ def _heavy_view(x):
     return x
 
 
-def build(name, stack):
+def build(name, stack, host_opts=False):
     from checks.c02_spaces_along_rollouts import build_env
 
-    return build_env(name, {"push_enable": False, "noise_level": 0.0} if name.startswith("G1") else {}, stack)
+    opts = {"push_enable": False, "noise_level": 0.0} if name.startswith("G1") else {}
+    if host_opts and name in CLASSIC:
+        # every numeric constructor option re-passed with its default value, but as a plain Python float / list (how a user
+        # would type it): an option stored without conversion works eagerly and breaks under tracing
+        import inspect
+
+        from lerax.env import classic_control as cc
+
+        for k, prm in inspect.signature(getattr(cc, name).__init__).parameters.items():
+            d = prm.default
+            if isinstance(d, bool) or d is inspect.Parameter.empty or d is None:
+                continue
+            if isinstance(d, (int, float)) or hasattr(d, "shape"):
+                opts[k] = np.asarray(d).tolist()
+    return build_env(name, opts, stack)
 
 
 def modes_case(ctx: Ctx, case):
     name, stack, B = case["env"], case["stack"], case["batch"]
-    env = build(name, stack)
+    env = build(name, stack, case.get("host_opts", False))
     heavy = name not in CLASSIC
     # MuJoCo / G1: float32 contact solvers amplify reassociation differences between the vmapped and the
     # single program (seen: 2e-3 in a HalfCheetah successor, 1.4e-4 in Humanoid inertias); norm-wise 2e-3
@@ -134,7 +148,7 @@ def modes_case(ctx: Ctx, case):
                 why = _close(_heavy_view(eout), _heavy_view(jout), rtol, atol, normwise=True) if heavy else _close(eout, jout, rtol, atol)
                 ctx.check(why is None, f"C12/{fn}/eager-differs-from-jit", tags=tags, why=why)
             n_checked += 1
-    ctx.count(nontrivial=True, classes=[name, tags["stack"], f"B={B}"], key=[name, stack, B, case["key"]])
+    ctx.count(nontrivial=True, classes=[name, tags["stack"], f"B={B}"] + ["host_form_options"] * bool(case.get("host_opts")), key=[name, stack, B, case["key"]])
 
 
 def modes_worker(ctx: Ctx, payload):
@@ -406,6 +420,8 @@ def run(ctx: Ctx):
     for name in CLASSIC:
         stacks = [[], ["TimeLimit"]] if ctx.quick else [[], ["TimeLimit"], ["FlattenObservation", "ClipObservation"]] + ([["RescaleAction"], ["ClipAction", "TimeLimit"]] if name in ("Pendulum", "ContinuousMountainCar") else [])
         payloads.append([{"env": name, "stack": s, "batch": int(rng.integers(2, 6)), "prefix": int(rng.integers(0, 4)), "key": int(rng.integers(0, 2**31 - 100)), "eager": all_fns} for s in stacks for _ in range(ctx.n(2, 8))])
+    for name in CLASSIC:
+        payloads.append([{"env": name, "stack": [], "host_opts": True, "batch": 3, "prefix": 1, "key": int(rng.integers(0, 2**31 - 100)), "eager": all_fns}])
     mj = ["InvertedPendulum", "Hopper", "Reacher"] if ctx.quick else ["InvertedPendulum", "InvertedDoublePendulum", "HalfCheetah", "Hopper", "Walker2d", "Swimmer", "Reacher", "Pusher", "Ant", "Humanoid", "HumanoidStandup"]
     for name in mj:
         payloads.append([{"env": name, "stack": [], "batch": 2, "prefix": int(rng.integers(0, 3)), "key": int(rng.integers(0, 2**31 - 100)), "eager": ["observation", "reward", "terminal", "truncate"]} for _ in range(ctx.n(1, 3))])
